@@ -101,6 +101,39 @@ fn two_picks<U: User, E: Engine<U>>(q: L<U, E>) -> Goal<U, E> {
     })
 }
 
+// ---- 6b. ONE closure goal object (fresh block directly inside the closure) solved twice in
+// one conjunction: each solve creates its own `x`
+fn either<U: User, E: Engine<U>>(a: L<U, E>, b: L<U, E>) -> Goal<U, E> {
+    proto_vulcan_closure!(|x| {
+        conde {
+            [x == 1, a == 1],
+            [x == 2, b == 2],
+        }
+    })
+}
+fn either_twin<U: User, E: Engine<U>>(a: L<U, E>, b: L<U, E>) -> Goal<U, E> {
+    proto_vulcan_closure!([|fresh_y| {
+        conde {
+            [fresh_y == 1, a == 1],
+            [fresh_y == 2, b == 2],
+        }
+    }])
+}
+fn shared_twice<U: User, E: Engine<U>>(q: L<U, E>) -> Goal<U, E> {
+    let a: L<U, E> = LTerm::var("a");
+    let b: L<U, E> = LTerm::var("b");
+    let g = either(a.clone(), b.clone());
+    let g2 = g.clone();
+    proto_vulcan!([g, g2, q == [a, b]])
+}
+fn shared_twice_twin<U: User, E: Engine<U>>(q: L<U, E>) -> Goal<U, E> {
+    let a: L<U, E> = LTerm::var("a");
+    let b: L<U, E> = LTerm::var("b");
+    let g = either_twin(a.clone(), b.clone());
+    let g2 = g.clone();
+    proto_vulcan!([g, g2, q == [a, b]])
+}
+
 // ---- 7. a fresh variable reused after its scope ended
 fn reused<U: User, E: Engine<U>>(q: L<U, E>) -> Goal<U, E> {
     proto_vulcan!([
@@ -200,6 +233,20 @@ pub fn corpus() -> Vec<Entry> {
                     }
                 }
                 v
+            },
+        },
+        Entry {
+            name: "shared-closure-goal",
+            build: |q| shared_twice(q),
+            twin: Some(|q| shared_twice_twin(q)),
+            // (x1, x2) in {1,2}^2: a is 1 if some pick was 1, b is 2 if some pick was 2
+            expected: || {
+                vec![
+                    T::list(vec![i(1), T::Any(0)]),
+                    T::list(vec![i(1), i(2)]),
+                    T::list(vec![i(1), i(2)]),
+                    T::list(vec![T::Any(0), i(2)]),
+                ]
             },
         },
         Entry { name: "reused", build: |q| reused(q), twin: None, expected: || vec![i(2)] },
